@@ -7,6 +7,7 @@ import Swat4.Lemmas.GS1Decode
 import Swat4.Lemmas.GS1Players
 import Swat4.Lemmas.GS1Atoi
 import Swat4.Spec.GS1Spec
+import Swat4.Lemmas.GS1Shared
 /-!
 # C08 — Status responses decode faithfully in every dialect, split and order
 
@@ -464,6 +465,66 @@ theorem C08_players_listing (d : Dialect) (s s' : GS1Spec.Status) (wf : WfStatus
   have : sortById s'.players = sortById s.players :=
     sortById_unique _ _ ((sortById_perm _).trans hp.symm) (sortById_sorted _ wf.player_ids)
   simp only [toResponse, hf, ho, this]
+
+/-! ## the helpers shared by the model and `toResponse`, characterised on their own
+
+`GS1Spec.mkMap` / `toResponse` call the model's `GS1.latin1` and `GS1.insertKV`, so on those two functions
+`C08_decode` compares the model with itself.  The theorems below say what the two functions compute
+without mentioning them on the right-hand side. -/
+
+/-- **C08 ("latin-1 → UTF-8").** The bytes `latin1 bs` are valid UTF-8, and decoding them with Lean
+core's `String.fromUTF8?` gives the string whose characters are, one per input byte and in order, the code
+points with the same numbers (`Char.ofNat b.toNat`: ISO 8859-1 is the first 256 code points of Unicode).
+Equivalently (`latin1_bytes`) the output is the concatenation of core's UTF-8 encodings
+(`String.utf8EncodeChar`) of those code points. -/
+theorem latin1_spec (bs : Bytes) :
+    ∃ s : String, String.fromUTF8? (latin1 bs).toByteArray = some s ∧
+      s.toList = bs.map (fun b => Char.ofNat b.toNat) :=
+  ⟨_, latin1_fromUTF8 bs, String.toList_ofList⟩
+
+/-- `latin1_spec` on the byte level: the output is core's UTF-8 encoding of the code points, and so the
+byte content of the string made of them -/
+theorem latin1_bytes (bs : Bytes) :
+    latin1 bs = (bs.map fun b => Char.ofNat b.toNat).flatMap String.utf8EncodeChar ∧
+    latin1 bs = (String.ofList (bs.map fun b => Char.ofNat b.toNat)).toUTF8.data.toList :=
+  ⟨latin1_eq_flatMap bs, latin1_eq_toUTF8 bs⟩
+
+/-- the code point of a byte has the byte's number (so 7-bit bytes are kept and `0xE9` becomes U+00E9) -/
+theorem latin1_codePoint (b : UInt8) : (Char.ofNat b.toNat).toNat = b.toNat := codePoint_toNat b
+
+/-- **C08 ("a later duplicate wins"), one insertion.**  After `insertKV k v m` the lookup of `k` gives `v`
+and the lookup of every other key is what it was; and, by list membership alone (no `lookupKV`): the pair
+`(k, v)` is in the result, pairs under other keys are neither added nor lost, and when the keys of `m` are
+strictly ascending (the invariant of every map in the model and in `mkMap`) no other value remains under
+`k`. -/
+theorem insertKV_lookup (k : Bytes) (v : Bytes) (m : List (Bytes × Bytes)) :
+    lookupKV k (insertKV k v m) = some v ∧
+    (∀ k', k' ≠ k → lookupKV k' (insertKV k v m) = lookupKV k' m) ∧
+    (k, v) ∈ insertKV k v m ∧
+    (∀ k' v', k' ≠ k → ((k', v') ∈ insertKV k v m ↔ (k', v') ∈ m)) ∧
+    ((keysG m).Pairwise (· < ·) → ∀ w, (k, w) ∈ insertKV k v m → w = v) := by
+  refine ⟨by rw [lookupKV_insertKV_g]; simp, ?_, insertKV_mem_self k v m, ?_, ?_⟩
+  · intro k' hk; rw [lookupKV_insertKV_g]; simp [hk]
+  · intro k' v' hk; exact insertKV_mem_other k v m k' v' hk
+  · intro hs w hw; exact insertKV_mem_key strictTotal_bytes k v w m hs hw
+
+/-- **C08 ("a later duplicate wins"), the whole map.**  `mkMap kvs` — the field map and each player's map
+of `toResponse` — holds `(k, w)` exactly when `k` occurs in `kvs` and `w` is the latin-1 → UTF-8 conversion
+of the value of the LAST pair with key `k` (core `List.lookup` on the reversed list). -/
+theorem mkMap_mem (kvs : List (Bytes × Bytes)) (k w : Bytes) :
+    (k, w) ∈ mkMap kvs ↔ ∃ v, List.lookup k kvs.reverse = some v ∧ w = latin1 v := by
+  rw [mkMap_eq, foldl_insField_mem kvs [] (by simp [keysG]) k w]
+  cases List.lookup k kvs.reverse with
+  | none => simp
+  | some v => simp
+
+/-- `latin1_spec`, `mkMap_mem` on concrete data: `S é r v` (latin-1 `53 E9 72 76`) becomes `53 C3 A9 72 76`,
+which core decodes to "Sérv"; of two `a` pairs the second wins -/
+example : latin1 [0x53, 0xe9, 0x72, 0x76] = [0x53, 0xc3, 0xa9, 0x72, 0x76] ∧
+    String.fromUTF8? (latin1 [0x53, 0xe9, 0x72, 0x76]).toByteArray = some "Sérv" ∧
+    mkMap [([0x61], [0x31]), ([0x62], [0xe9]), ([0x61], [0x32])] = [([0x61], [0x32]), ([0x62], [0xc3, 0xa9])] := by
+  refine ⟨by decide, ?_, by decide⟩
+  rw [latin1_fromUTF8]; rfl
 
 end Swat4.C08
 
